@@ -220,6 +220,11 @@ ExportTriple ==
      dev    |-> IF A \in DOMAIN Dev \/ B \in DOMAIN Dev \/ C \in DOMAIN Dev
                 THEN [q \in 1..6 |-> Compare(CmpSeq[q], Compare(CmpSeq[q], Dv(A), Dv(B)), Dv(C))]
                 ELSE <<>>,
+     \* a <= b, b <= c, a <= c under the deviant reading (<<>>: there is none)
+     devle  |-> IF A \in DOMAIN Dev \/ B \in DOMAIN Dev \/ C \in DOMAIN Dev
+                THEN <<Compare("<=", Dv(A), Dv(B)), Compare("<=", Dv(B), Dv(C)),
+                       Compare("<=", Dv(A), Dv(C))>>
+                ELSE <<>>,
      chain  |-> B2N(NonBlankScalar(A) /\ NonBlankScalar(B) /\ NonBlankScalar(C)
                     /\ Le(A, B) /\ Le(B, C))]))
 
